@@ -436,6 +436,43 @@ pub fn body(case: &Case, out: &Shared) {
     }
     let any_ok = writes.iter().any(|w| w.ok);
     let k_last = plan.opens.last().unwrap();
+    // ---- optionally a second, transient fault inside the recovery itself: the k-th filesystem
+    // call of an intermediate reopen fails once. That open may fail (an error is a report) or
+    // succeed; either way the clean reopen below must still find every acknowledged write - a
+    // recovery that swallows the error and goes on with partial state (skips a log, then deletes it
+    // as obsolete) loses one.
+    let recovery_fault = case.params.get("recovery_fault").copied().unwrap_or(0);
+    if recovery_fault > 0 && case.fault.is_some() && any_ok {
+        let fired_before = fs.fault_stats().fired;
+        let at = fs.calls_len() as u64 + (recovery_fault as u64 - 1);
+        fs.arm(crate::simfs::FaultSpec { at_call: at, mode: FaultMode::Transient, keep: 0 });
+        let r = open(k_last, false);
+        let fired = fs.fault_stats().fired > fired_before;
+        with_out(out, |o| {
+            o.stats.bump("recovery_fault_runs", 1);
+            if fired {
+                o.stats.bump(if r.is_ok() { "recovery_fault_fired_open_ok" } else { "recovery_fault_fired_open_err" }, 1);
+            }
+        });
+        match r {
+            Ok(d) => {
+                // use the instance a little: what it flushes and reclaims is part of the story
+                let _ = call("flush", || d.verif_flush());
+                let _ = call("quiesce", || d.verif_wait_quiescent());
+                let _ = call("drop", move || drop(d));
+            }
+            Err(e) => {
+                if e.starts_with("PANIC") {
+                    push_finding(out, Finding::new(&["C08"], "panic-under-fault", "recovery", format!("{}; then a transient fault at call {} of the reopen: DB::open panicked instead of returning an error: {}", fault_label(&fs), recovery_fault, e), None));
+                }
+            }
+        }
+        fs.disarm();
+        if rt::is_poisoned() {
+            crate::hist::fold_fs_stats(&fs, out);
+            return;
+        }
+    }
     match open(k_last, !any_ok) {
         Ok(d) => {
             match call("scan", || scan_forward(&d, None)) {
